@@ -503,6 +503,13 @@ def rule_exact_registry_lookups(repo: Repo, rep: Report, rule: str = "R2.10") ->
             continue
         REG = ("schemas", "parsed_schemas")
         for q, fn in m.functions.items():
+            # a post-condition checker (only loops, tests, local bindings, `continue` and `raise`; returns nothing) resolves nothing
+            kinds_ = {type(x) for x in ast.walk(fn.node) if isinstance(x, ast.stmt) and x is not fn.node}
+            if ast.Raise in kinds_ and kinds_ <= {ast.For, ast.If, ast.Assign, ast.AnnAssign, ast.Continue, ast.Pass, ast.Raise, ast.Expr} and not any(
+                    isinstance(x, ast.Return) and x.value is not None for x in ast.walk(fn.node)) and not any(
+                    isinstance(x, (ast.Assign, ast.AnnAssign)) and not all(isinstance(t, ast.Name) for t in (x.targets if isinstance(x, ast.Assign) else [x.target]))
+                    for x in ast.walk(fn.node)):
+                continue
             L = Locals(fn.node)
             for node in own_nodes(fn.node):
                 key = None
